@@ -111,6 +111,14 @@ def h_window(ctx, cfg):
         ctx.prove(And(ctx.le(0, wsy[n]), ctx.le(wsy[n], 1)), "wsymm-samples-in-[0,1]")
     if size == 1:
       ctx.prove(wsy == [1.0], "wsymm.X(1)-is-[1.0]", "%r" % (wsy,))
+    # every call returns a fresh list: what a caller does to one result cannot leak into the next call
+    r1 = fs(_size(ctx, size), *args)
+    if r1: r1[0] = -7
+    r2 = fs(_size(ctx, size), *args)
+    ctx.prove(r2 is not r1 and len(r2) == size and all(bool(ctx.eq(a, b)) for a, b in zip(r2, wsy)), "wsymm-results-are-fresh-lists")
+    p1 = fw(_size(ctx, size), *args); p1[0] = -7
+    p2 = fw(_size(ctx, size), *args)
+    ctx.prove(p2 is not p1 and all(bool(ctx.eq(a, b)) for a, b in zip(p2, w)), "window-results-are-fresh-lists")
     if name == "blackman" and alpha is not None:
       # a second call with the same size and another alpha must not see anything of the first
       beta = ctx.real("beta", 0, Fraction(1, 4))
